@@ -16,12 +16,12 @@ import (
 
 var (
 	nsPool      = []string{"", "", "NS", "NS", "A::B", "N2"}
-	entPools    = map[string][]string{"": {"A", "B", "C", "String", "T"}, "NS": {"U", "G", "D", "ipaddr", "type"}, "A::B": {"P", "Q", "Long", "enum"}, "N2": {"V", "W", "entity", "tags"}}
+	entPools    = map[string][]string{"": {"A", "B", "C", "T", "String"}, "NS": {"U", "G", "D", "type", "ipaddr"}, "A::B": {"P", "Q", "enum", "Long"}, "N2": {"V", "W", "entity", "tags"}}
 	commonPools = map[string][]string{"": {"X", "Y", "A", "decimal"}, "NS": {"Z", "U", "Ctx", "ipaddr"}, "A::B": {"K", "P", "duration"}, "N2": {"M", "V", "Bool2"}}
 	// names the text format cannot declare / reference (JSON leg only)
-	oddCommon  = []string{"Set", "String", "Bool", "Record", "Entity", "Long", "Extension", "Boolean"}
-	attrPool   = []string{"a", "b", "k", "name", "if", "in", "true", "has", "like", "is", "then", "else", "__cedar", "type", "entity", "action", "namespace", "appliesTo", "principal", "resource", "context", "tags", "enum", "Set",
-		"a b", "", "1x", "x-y", "\n", "\t", "\"", "'", "\\", "\u0000", "é", "日本", "\u0080", "​", "́", "__entity", "__extn", "__tag:k", "a.b", "*", "\U0001F600", " ", "\a", "\x7f", "A::B", "@", "//", "/*"}
+	oddCommon = []string{"Set", "String", "Bool", "Record", "Entity", "Long", "Extension", "Boolean"}
+	attrPool  = []string{"a", "b", "k", "name", "if", "in", "true", "has", "like", "is", "then", "else", "__cedar", "type", "entity", "action", "namespace", "appliesTo", "principal", "resource", "context", "tags", "enum", "Set",
+		"a b", "", "1x", "x-y", "\n", "\t", "\"", "'", "\\", "\u0000", "é", "日本", "\u0080", "\u200b", "\u0301", "__entity", "__extn", "__tag:k", "a.b", "*", "\U0001F600", " ", "\a", "\x7f", "A::B", "@", "//", "/*"}
 	actionPool = []string{"view", "edit", "grp", "all", "if", "in", "__cedar", "a b", "", "\"", "\\", "é", "日本", "\n", "view::x", "Action", "\u0000", "*", "1", "appliesTo", "\U0001F600"}
 	annKeys    = []string{"doc", "a", "id", "if", "in", "__cedar", "type", "true", "_x1"}
 	enumVals   = []string{"red", "green", "", "a b", "\"", "\\", "\n", "é", "日本", "if", "\u0000", "\U0001F600", "x"}
@@ -213,7 +213,11 @@ func GenSchema(t *rapid.T, o GenOpts) *Schema {
 			epool, cpool = entPools["N2"], commonPools["N2"]
 		}
 		taken := map[string]bool{}
-		ne := rapid.IntRange(0, 3).Draw(t, "nent")
+		minEnt := 0
+		if i == 0 {
+			minEnt = 1
+		}
+		ne := rapid.IntRange(minEnt, 3).Draw(t, "nent")
 		for j := 0; j < ne; j++ {
 			n := gen.Pick(t, epool, "ename")
 			if Rare(t, 8, "foreignname") {
@@ -268,13 +272,24 @@ func GenSchema(t *rapid.T, o GenOpts) *Schema {
 		s.NS = append(s.NS, ns)
 		plans = append(plans, p)
 	}
-	// 2. bodies
+	// 2. bodies: common types of all namespaces first, so that contexts can aim at record-bodied ones
+	var recordCommons []string
+	for i := range s.NS {
+		ns := &s.NS[i]
+		for _, n := range plans[i].commons {
+			var body Type
+			if gen.Chance(t, 40, "commonrec") {
+				body = Rec(g.attrs(ns.Name, 1, 3)...)
+				recordCommons = append(recordCommons, Qualify(ns.Name, n))
+			} else {
+				body = g.typ(ns.Name, 2)
+			}
+			ns.Commons = append(ns.Commons, Common{Name: n, Ann: g.anns(), T: body})
+		}
+	}
 	for i := range s.NS {
 		ns := &s.NS[i]
 		p := plans[i]
-		for _, n := range p.commons {
-			ns.Commons = append(ns.Commons, Common{Name: n, Ann: g.anns(), T: g.typ(ns.Name, 2)})
-		}
 		for _, n := range p.ents {
 			e := Entity{Name: n, Ann: g.anns()}
 			np := rapid.IntRange(0, 2).Draw(t, "nparents")
@@ -293,7 +308,10 @@ func GenSchema(t *rapid.T, o GenOpts) *Schema {
 		}
 		for _, n := range p.enums {
 			e := Enum{Name: n, Ann: g.anns(), Values: []string{}}
-			nv := rapid.IntRange(0, 3).Draw(t, "nvals")
+			nv := rapid.IntRange(1, 3).Draw(t, "nvals")
+			if Rare(t, 6, "emptyenum") {
+				nv = 0
+			}
 			for j := 0; j < nv; j++ {
 				v := gen.Pick(t, enumVals, "enumv")
 				dup := false
@@ -363,9 +381,12 @@ func GenSchema(t *rapid.T, o GenOpts) *Schema {
 					ap.Context = &c
 				default:
 					var c Type
-					if len(g.commons) > 0 {
+					switch {
+					case len(g.commons) > 0 && g.odd("ctxanycommon"):
 						c = Ref(g.refTo(ns.Name, gen.Pick(t, g.commons, "ctxcommon")))
-					} else {
+					case len(recordCommons) > 0:
+						c = Ref(g.refTo(ns.Name, gen.Pick(t, recordCommons, "ctxreccommon")))
+					default:
 						c = Rec()
 					}
 					ap.Context = &c
